@@ -113,27 +113,34 @@ impl<T> ChanSender<T> {
 pub fn fresh_txn_id() -> (r: TransactionId) { unimplemented!() }
 
 /// the wrapped plain session: what it is handed is what the receiving application's links get
-pub struct InnerS { pub delivered: Ghost<Seq<(Transfer, Payload)>>, pub disposed: Ghost<Seq<Disposition>> }
+/// `handed`: the transfers handed to the inner session; `delivered`: those of them that reached the receiving link they were posted on
+/// `open`: the input handles on which a multi-frame delivery is in progress (a frame with more=true was handed on, its last frame not yet)
+pub struct InnerS { pub handed: Ghost<Seq<(Transfer, Payload)>>, pub delivered: Ghost<Seq<(Transfer, Payload)>>, pub disposed: Ghost<Seq<Disposition>>, pub open: Ghost<Set<u32>> }
 impl InnerS {
+    /// S::on_incoming_transfer. On the listener S = ListenerSession, whose on_incoming_transfer (unit ACCSESS, [C15.listener.unattached-not-fatal]) answers Ok(None) WITHOUT delivering anything
+    /// when the transfer's handle is not attached at the time of the call, and otherwise routes by whatever link holds that handle number now (unit SESSION, [C11.route.transfer])
     #[verifier::external_body]
     pub fn on_incoming_transfer(&mut self, transfer: Transfer, payload: Payload) -> (r: Result<Option<Disposition>, SessionInnerError>)
         ensures
-            r is Ok ==> final(self).delivered@ == old(self).delivered@.push((transfer, payload)),
-            r is Err ==> final(self).delivered@ == old(self).delivered@,
+            r is Ok ==> final(self).handed@ == old(self).handed@.push((transfer, payload)),
+            r is Ok ==> final(self).delivered@ == old(self).delivered@.push((transfer, payload)) || final(self).delivered@ == old(self).delivered@,
+            r is Err ==> final(self).delivered@ == old(self).delivered@ && final(self).handed@ == old(self).handed@,
             final(self).disposed == old(self).disposed,
+            r is Ok ==> final(self).open@ == (if transfer.more { old(self).open@.insert(transfer.handle.0) } else { old(self).open@.remove(transfer.handle.0) }),
     { unimplemented!() }
     #[verifier::external_body]
     pub fn on_incoming_disposition(&mut self, disposition: Disposition) -> (r: Result<Option<Vec<Disposition>>, SessionInnerError>)
         ensures
             r is Ok ==> final(self).disposed@ == old(self).disposed@.push(disposition),
             r is Err ==> final(self).disposed@ == old(self).disposed@,
-            final(self).delivered == old(self).delivered,
+            final(self).delivered == old(self).delivered, final(self).handed == old(self).handed, final(self).open == old(self).open,
     { unimplemented!() }
 }
 
 // TransactionManager: only the transaction table (R11: channel ends elided)
 pub struct TransactionManager { pub txns: OrderedMap<TransactionId, ResourceTransaction> }
-pub struct TxnSession { pub control: ChanSender<SessionControl>, pub session: InnerS, pub txn_manager: TransactionManager }
+/// `discharging` (ghost): the ids whose Discharge has ALREADY ARRIVED on the control link (it was relayed to the coordinator task, whose CommitTransaction / RollbackTransaction request has not come back through the control queue yet)
+pub struct TxnSession { pub control: ChanSender<SessionControl>, pub session: InnerS, pub txn_manager: TransactionManager, pub discharging: Ghost<Set<TransactionId>> }
 
 // ---- specification vocabulary -----------------------------------------------------------------
 /// the transfer as replayed on commit: a transactional state is replaced by the outcome it carries
@@ -209,21 +216,24 @@ impl TxnSession {
             && final(self).txns() == old(self).txns() && final(self).session == old(self).session,   // [C18.discharge.unknown-commit] unknown or finished id: refused with the transaction error, nothing applied
         old(self).txns().contains_key(txn_id) ==> final(self).txns() == old(self).txns().remove(txn_id),   // [C18.discharge.once-commit] the id is consumed by the discharge whatever the outcome: a second discharge finds it unknown
         old(self).txns().contains_key(txn_id) && r is Ok ==> r->Ok_0 is Ok
-            && final(self).session.delivered@ =~= old(self).session.delivered@ + posts(old(self).txns()[txn_id].frames@),   // [C18.commit.all-in-order] after a successful commit ALL posted messages are handed on, in posting order, with the transactional state replaced by its outcome
+            && final(self).session.handed@ =~= old(self).session.handed@ + posts(old(self).txns()[txn_id].frames@),   // [C18.commit.all-handed-in-order] after a successful commit ALL posted messages have been handed to the session, in posting order, with the transactional state replaced by its outcome
+        old(self).txns().contains_key(txn_id) && r is Ok ==> final(self).session.delivered@ =~= old(self).session.delivered@ + posts(old(self).txns()[txn_id].frames@),   // [C18.commit.all-in-order] ... and every one of them is DELIVERED, to the link it was posted on: a commit answered Accepted must not have dropped or re-routed a post (the replay goes by the handle NUMBER as attached at commit time)
+        old(self).txns().contains_key(txn_id) && r is Ok ==> forall|i: int| 0 <= i < old(self).txns()[txn_id].frames@.len() && (#[trigger] old(self).txns()[txn_id].frames@[i]) is Post
+            ==> !old(self).session.open@.contains(old(self).txns()[txn_id].frames@[i]->Post_transfer.handle.0),       // [C18.commit.replay-not-inside-a-delivery] the posts of a committed transaction are not replayed into the middle of another delivery of the same link: while a plain multi-frame delivery is in progress on the link (more=true seen, last frame not yet) the replayed frames would be spliced into it -- the link fails with InconsistentFieldInMultiFrameDelivery and both messages are lost although the commit is answered Accepted
 //@@ entry
         let ghost fs0 = if self.txn_manager.txns@.contains_key(txn_id) { self.txn_manager.txns@[txn_id].frames@ } else { Seq::empty() };
-        let ghost d0 = self.session.delivered@;
+        let ghost d0 = self.session.handed@;
 //@@ loop 0
         invariant
             __it0.seq() == fs0,
             old(self).txn_manager.txns@.contains_key(txn_id),
             self.txn_manager.txns@ == old(self).txn_manager.txns@.remove(txn_id),
-            self.session.delivered@ =~= d0 + posts(fs0.take(__it0.index@)),
+            self.session.handed@ =~= d0 + posts(fs0.take(__it0.index@)),
 //@@ loop 1
         invariant
             old(self).txn_manager.txns@.contains_key(txn_id),
             self.txn_manager.txns@ == old(self).txn_manager.txns@.remove(txn_id),
-            self.session.delivered@ =~= d0 + posts(fs0.take(__it0.index@ + 1)),
+            self.session.handed@ =~= d0 + posts(fs0.take(__it0.index@ + 1)),
 //@@ loopstart 0
             proof {
                 let i = __it0.index@;
@@ -248,8 +258,9 @@ impl TxnSession {
                     && (forall|k: TransactionId| k != id && old(self).txns().contains_key(k) ==> #[trigger] final(self).txns()[k] == old(self).txns()[k])   // [C18.post.isolated] other transactions are untouched
             &&& !old(self).txns().contains_key(id) ==> r is Err && r->Err_0 is UnknownTxnId && final(self).txns() == old(self).txns()   // [C18.post.unknown] posting to an unknown or finished id is refused, nothing applied
         }),
+        transfer.state is Some && transfer.state->Some_0 is TransactionalState && old(self).discharging@.contains(transfer.state->Some_0->TransactionalState_0.txn_id) ==> r is Err && r->Err_0 is UnknownTxnId && final(self).txns() == old(self).txns(),   // [C18.post.after-discharge-refused] a post that arrives after its transaction's discharge (in wire order) is refused with the transaction error, it is not added to the transaction: a discharge takes effect when its frame arrives, not when the coordinator task's request has made its way back through the session's control queue
         !(transfer.state is Some && transfer.state->Some_0 is TransactionalState) ==> final(self).txns() == old(self).txns()
-            && (r is Ok ==> final(self).session.delivered@ == old(self).session.delivered@.push((transfer, payload))),   // [C18.post.non-transactional-passthrough] a non-transactional transfer goes straight through
+            && (r is Ok ==> final(self).session.handed@ == old(self).session.handed@.push((transfer, payload))),   // [C18.post.non-transactional-passthrough] a non-transactional transfer goes straight through
 //@@ end
 
 //@@ fn file=fe2o3-amqp/src/transaction/session.rs impl=`~endpoint::SessionforTxnSession<S>` name=on_incoming_disposition
